@@ -224,20 +224,24 @@ theorem valuesVI_false (tbl : List IRValue) (is : List Nat) : valuesVI tbl false
 /-- what `function_rt` exposes about the deserialized function besides the round trip: its shape,
 the output indices of its nodes, and that serialization without value_info (IR < 10) only depends on
 the names in the table -/
-def FnShape (ver : Int) (f : FunctionP) (x : IRFunction) : Prop :=
+def FnShapeG (over : Option Int) (f : FunctionP) (x : IRFunction) : Prop :=
   ∃ xs gouts as,
     x = fnIR f (f.inputs.map (newValueT f.valueInfo []) ++ (nodeOutNames f.nodes).map (newValueT f.valueInfo []))
       xs gouts as ∧
     xs.flatMap IRNode.outputs = (f.nodes.flatMap NodeP.outputs).map
       (fun s => if s = "" then none else lookupLast (f.inputs ++ nodeOutNames f.nodes) s) ∧
     ∀ tbl', tableNames tbl' = f.inputs ++ nodeOutNames f.nodes →
-      serFunction (some ver) false (fnIR f tbl' xs gouts as) = .ok (normFunction false f)
+      serFunction over false (fnIR f tbl' xs gouts as) = .ok (normFunction false f)
 
-theorem function_rt (ver : Int) (f : FunctionP) (h : wfFunction ver f = true)
-    (hver : 11 ≤ ver ∨ nodesHaveDevCfg f.nodes = false) :
+def FnShape (ver : Int) (f : FunctionP) (x : IRFunction) : Prop := FnShapeG (some ver) f x
+
+/-- `over` is the `model_ir_version` the serializer is given (`none` when a function is serialized on
+its own), `ver` the version that decides whether value_info is written -/
+theorem function_rt_gen (over : Option Int) (ver : Int) (f : FunctionP) (h : wfFunction ver f = true)
+    (hver : verAllows over = true ∨ nodesHaveDevCfg f.nodes = false) :
     ∃ x, desFunction f = .ok x ∧
-      serFunction (some ver) (decide (ver ≥ 10)) x = .ok (normFunction (decide (ver ≥ 10)) f) ∧
-      fnKey x = (f.domain, f.name, f.overload) ∧ FnShape ver f x := by
+      serFunction over (decide (ver ≥ 10)) x = .ok (normFunction (decide (ver ≥ 10)) f) ∧
+      fnKey x = (f.domain, f.name, f.overload) ∧ FnShapeG over f x := by
   simp only [wfFunction, Bool.and_eq_true] at h
   obtain ⟨⟨⟨⟨⟨⟨⟨⟨⟨⟨⟨⟨h1, h2⟩, h3⟩, h4⟩, h5⟩, h6⟩, h7⟩, h8⟩, _h9⟩, h10⟩, _h11⟩, h12⟩, _h13⟩ := h
   have hnd := nodupStr_iff.1 h1
@@ -252,12 +256,9 @@ theorem function_rt (ver : Int) (f : FunctionP) (h : wfFunction ver f = true)
   have hN : tableNames (f.inputs.map (newValueT f.valueInfo [])
       ++ (nodeOutNames f.nodes).map (newValueT f.valueInfo [])) = f.inputs ++ nodeOutNames f.nodes := by
     simp [tableNames, List.map_map, Function.comp_def]
-  obtain ⟨xs, n1, n2, n3⟩ := nodes_rt [] f.valueInfo [] (some ver) f.nodes
+  obtain ⟨xs, n1, n2, n3⟩ := nodes_rt [] f.valueInfo [] over f.nodes
     (f.inputs.map (newValueT f.valueInfo []) ++ (nodeOutNames f.nodes).map (newValueT f.valueInfo []))
-    (by rw [hN]; exact h12)
-    (by rcases hver with hv | hv
-        · exact Or.inl (by simp [verAllows, hv])
-        · exact Or.inr hv)
+    (by rw [hN]; exact h12) hver
   rw [hN] at n2 n3
   obtain ⟨gouts, o1, o2⟩ := functionOutputs_eq (f.inputs ++ nodeOutNames f.nodes) f.outputs
     (by intro n hn; have := List.all_eq_true.1 h3 n hn; simpa using this)
@@ -285,7 +286,7 @@ theorem function_rt (ver : Int) (f : FunctionP) (h : wfFunction ver f = true)
     dictByKey_nodup _ _ (nodupStr_iff.1 h10)
   -- serialization, for any table with the right names
   have hser : ∀ (tbl' : List IRValue) (c : Bool), tableNames tbl' = f.inputs ++ nodeOutNames f.nodes →
-      serFunction (some ver) c (fnIR f tbl' xs gouts as) = .ok
+      serFunction over c (fnIR f tbl' xs gouts as) = .ok
         { normFunction c f with
           valueInfo := valuesVI tbl' c (List.range f.inputs.length)
             ++ valuesVI tbl' c (optNats (xs.flatMap IRNode.outputs)) } := by
@@ -321,6 +322,16 @@ theorem function_rt (ver : Int) (f : FunctionP) (h : wfFunction ver f = true)
   · intro tbl' htn
     rw [hser tbl' false htn, valuesVI_false, valuesVI_false]
     simp [normFunction]
+
+theorem function_rt (ver : Int) (f : FunctionP) (h : wfFunction ver f = true)
+    (hver : 11 ≤ ver ∨ nodesHaveDevCfg f.nodes = false) :
+    ∃ x, desFunction f = .ok x ∧
+      serFunction (some ver) (decide (ver ≥ 10)) x = .ok (normFunction (decide (ver ≥ 10)) f) ∧
+      fnKey x = (f.domain, f.name, f.overload) ∧ FnShape ver f x :=
+  function_rt_gen (some ver) ver f h (by
+    rcases hver with hv | hv
+    · exact Or.inl (by simp [verAllows, hv])
+    · exact Or.inr hv)
 
 /-! ### models -/
 
